@@ -24,11 +24,31 @@ void log_error () { VL ("say compile-error"); }
 object *spares = ({ });
 void refill (int n) { spares -= ({ 0 }); while (sizeof (spares) < n) spares += ({ new ("/c05/box") }); }
 
+// scripted extra work of the error handler (set by prep() of dedicated cases, which are evaluated WITHOUT fault injection):
+// LPC that itself uses catch() and friends while the driver is between "error raised" and "error delivered".
+//   1  a catch that catches nothing                 2  a catch that catches an error() raised inside the handler
+//   4  a catch that catches a throw()               8  an efun callback (map) whose function catches an inner error
+//  16  a nested catch (inner catches, outer catches nothing)
+// Nothing of this may change what the catch that is waiting for the ORIGINAL error yields.
+int hscript;
+void set_hscript (int n) { hscript = n; }
+void hnoop () { }
+void hboom () { error ("handler-inner\n"); }
+void hthrow () { throw ("handler-thrown"); }
+int hcb (int x) { mixed e; e = catch (hboom ()); return x; }
+void hnest () { mixed e; e = catch (hboom ()); }
+
 string error_handler (mapping m, int caught) {
   string e = m["error"];
   object o;
+  mixed hv;
   if (!stringp (e)) e = "?";
   VL ((caught ? "caught " : "err ") + e);
   if (sizeof (spares)) { o = spares[0]; spares = spares[1..]; if (o) destruct (o); }
+  if (hscript & 1) hv = catch (hnoop ());
+  if (hscript & 2) hv = catch (hboom ());
+  if (hscript & 4) hv = catch (hthrow ());
+  if (hscript & 8) hv = map (({ 1, 2 }), (: hcb :));
+  if (hscript & 16) hv = catch (hnest ());
   return "";
 }
